@@ -6,6 +6,9 @@ import (
 	"net"
 	"time"
 
+	"hop.computer/hop/certs"
+	"hop.computer/hop/config"
+	"hop.computer/hop/hopserver"
 	"hop.computer/hop/transport"
 	"verifharness/hv"
 )
@@ -449,5 +452,146 @@ func (w *World) C10Client(r *hv.Rand) {
 		}
 		specCase("C10", fmt.Sprintf("client-junk/established/hidden=%v", hidden), fmt.Sprintf("established client (hidden=%v): %d junk datagrams through handleSessionMessage, then probes", hidden, len(junk)), good, sig, what, true)
 		run.Close()
+	}
+}
+
+// BuildClientAck writes a ClientAck from the layout and schedule of handshake_spec.md for ANY 256-byte
+// server-name plaintext, on the state of a white-box client that has read its ServerHello and rekeyed.
+func BuildClientAck(hs *transport.VerifHsState, sni []byte) []byte {
+	sh := NewShadow(hs.VerifHsDuplex())
+	kpub, _ := hs.VerifHsKEMEphemeral().Public.MarshalBinary()
+	eph := hs.VerifHsDHEphemeral().Public
+	pt := make([]byte, 256)
+	copy(pt, sni)
+	hdr := []byte{3, 0, 0, 0}
+	sh.Absorb(hdr)
+	sh.Absorb(eph[:])
+	sh.Absorb(kpub)
+	sh.Absorb(hs.VerifHsCookie())
+	esni := sh.Encrypt(pt)
+	mac := sh.Squeeze(16)
+	out := append([]byte(nil), hdr...)
+	out = append(out, eph[:]...)
+	out = append(out, kpub...)
+	out = append(out, hs.VerifHsCookie()...)
+	out = append(out, esni...)
+	return append(out, mac...)
+}
+
+func sniBlock(typ byte, label []byte) []byte {
+	return append([]byte{byte(len(label) + 3), typ, byte(len(label))}, label...)
+}
+
+// C10HopServer: servers constructed by the real hopserver.NewHopServer (its getCert / getAllowedCerts
+// closures and VirtualHosts.Match are what a ClientAck's server name reaches) fed correctly MACed
+// ClientAcks, behind valid cookies, whose server name is anything at all: any label, any id type byte,
+// malformed blocks. Then the usual probe handshake and probe message.
+func (w *World) C10HopServer(r *hv.Rand) {
+	id2 := w.P.Issue("server-two", "two.example")
+	id3 := w.P.Issue("server-three", "three.example")
+	type hcfg struct {
+		name     string
+		named    []*Ident
+		pats     []string
+		catchAll *Ident
+		hidden   []string
+		probe    *Ident
+		full     bool // the whole set of server names also in the quick tier
+	}
+	cfgs := []hcfg{
+		{"named-only-1vhost", []*Ident{id2}, []string{"two.example"}, nil, nil, id2, hv.Thorough()},
+		{"named-only-3vhosts", []*Ident{w.Srv, id2, id3}, []string{"srv.example", "two.*", "three.example"}, nil, nil, id3, true},
+		{"catch-all-only", nil, nil, w.Srv, nil, w.Srv, hv.Thorough()},
+		{"2vhosts+catch-all", []*Ident{id2, id3}, []string{"two.example", "three.*"}, w.Srv, nil, id2, true},
+		{"named-only-3vhosts-hidden", []*Ident{w.Srv, id2, id3}, []string{"srv.example", "two.example", "three.example"}, nil, []string{"srv.example", "two.example", "three.example"}, id3, true},
+	}
+	// server names: label x id type, and malformed blocks
+	var snis [][]byte
+	var what []string
+	add := func(n string, b []byte) { snis = append(snis, b); what = append(what, n) }
+	labels := map[string][]byte{"matching": []byte("two.example"), "non-matching": []byte("nomatch.zz"), "empty": {}, "252 bytes": bytes.Repeat([]byte("a"), 252), "253 bytes (block size wraps to 0)": bytes.Repeat([]byte("b"), 253)}
+	for _, ln := range []string{"matching", "non-matching", "empty", "252 bytes", "253 bytes (block size wraps to 0)"} {
+		for _, t := range []byte{0, 1, 3, 4, 0x7f, 0xff} {
+			add(fmt.Sprintf("%s label, id type %#02x", ln, t), sniBlock(t, labels[ln]))
+		}
+	}
+	for t := 2; t < 256; t += hv.Scale(41, 1) {
+		add(fmt.Sprintf("non-matching label, id type %#02x", t), sniBlock(byte(t), []byte("other.zz")))
+	}
+	add("block size 2", []byte{2, 0, 0})
+	add("label length beyond block size", []byte{5, 0, 200, 'x', 'y'})
+	add("block size 255, label 252, type 0x7f", append([]byte{255, 0x7f, 252}, bytes.Repeat([]byte("c"), 252)...))
+	add("all zero", nil)
+	add("all 0xff", bytes.Repeat([]byte{0xff}, 256))
+	for _, c := range cfgs {
+		sc := &config.ServerConfig{ListenAddress: "127.0.0.1:0", HandshakeTimeout: time.Hour,
+			CACerts: []*certs.Certificate{w.P.Root, w.P.Inter}, HiddenModeVHostNames: c.hidden}
+		var ids []*Ident
+		for i, id := range c.named {
+			sc.Names = append(sc.Names, config.NameConfig{Pattern: c.pats[i], Key: id.Key, KEMKey: id.KEM, Certificate: id.Leaf, Intermediate: id.Inter})
+			ids = append(ids, id)
+		}
+		if c.catchAll != nil {
+			sc.Key, sc.KEMKey, sc.Certificate, sc.Intermediate = c.catchAll.Key, c.catchAll.KEM, c.catchAll.Leaf, c.catchAll.Inter
+			ids = append(ids, c.catchAll)
+		}
+		hsrv, err := hopserver.NewHopServer(sc)
+		if err != nil {
+			panic(err)
+		}
+		srv := NewSrvFrom(hsrv.Server)
+		hidden := len(c.hidden) > 0
+		q := NewSeq(srv, ids, hidden)
+		ccfg := w.Cli.ClientConfig(w.P.Verify(PolSkip, "", nil, false))
+		// one client (one ClientHello, printed once) presenting itself from a new address each time
+		chs, err := transport.VerifHsNewClientHS(&ccfg, srv.Addr, false)
+		if err != nil {
+			panic(err)
+		}
+		buf := make([]byte, 2000)
+		n, _ := transport.VerifHsWritePQClientHello(chs, buf)
+		hello := append([]byte(nil), buf[:n]...)
+		afterHello := chs.VerifHsDuplex()
+		q.Base(hello)
+		for i, sni := range snis {
+			a := w.NextAddr()
+			if !c.full && i%4 != 1 && i < len(snis)-5 {
+				continue // the reduced set for the simpler configurations (quick tier)
+			}
+			out, _ := q.Step(a, hello, "ClientHello", nil)
+			if hidden {
+				// a hidden server ignores ClientHello and ClientAck altogether
+				if i > 3 {
+					break
+				}
+				continue
+			}
+			if len(out) != 1 {
+				q.Bad = append(q.Bad, fmt.Sprintf("ClientHello before server name %q got no ServerHello", what[i]))
+				break
+			}
+			chs.VerifHsSetDuplex(afterHello)
+			if _, err := transport.VerifHsReadPQServerHello(chs, out[0].Data); err != nil {
+				q.Bad = append(q.Bad, fmt.Sprintf("the ServerHello before server name %q does not verify: %v", what[i], err))
+				break
+			}
+			chs.VerifHsRekey(PQName)
+			q.Step(a, BuildClientAck(chs, sni), "ClientAck[server name: "+what[i]+"]", nil)
+			if len(srv.Panics) > 0 {
+				break // the receive goroutine would be dead
+			}
+		}
+		ok, msg := true, ""
+		if len(srv.Panics) == 0 {
+			cc := c10cfg{name: c.name, hidden: hidden}
+			nc, _, _, err := w.connect(q, cc, c.probe, w.NextAddr())
+			if err != nil {
+				ok, msg = false, fmt.Sprint("after the named ClientAcks a fresh honest handshake fails: ", err)
+			} else if m, good := w.probe(q, nc, q.Accept()); !good {
+				ok, msg = false, m
+			}
+		}
+		q.Emit("hopserver-built/"+c.name, fmt.Sprintf("hopserver.NewHopServer(%s): ClientAcks behind valid cookies carrying %d server names (labels x id types 0..255, malformed blocks), then probe", c.name, len(snis)),
+			ok, "C10:endpoint-wedged-after-junk", msg, true)
 	}
 }
